@@ -108,6 +108,21 @@ def gen_cases(ctx, quick):
                 ps.append(b"<p>" + t + b"</p>")
         d = cc.WML_DOCTYPE + b"<wml><card>" + b"".join(ps) + b"</card></wml>"
         cases.append((cc.x2w_line(d, strtbl=1, keep=rng.below(2), version=rng.below(4), anon=rng.below(2)), "strtbl-words", d))
+    # documents whose length is an exact multiple of 64 KiB (and +-1): complete ones must convert, truncated ones must be
+    # refused — a chunked feed of Expat that forgets the final call shows exactly there
+    base = cc.WML_DOCTYPE + b"<wml><card>"
+    tail = b"</card></wml>"
+    for size in (65536, 131072, 65536 * 3 if quick else 65536 * 8):
+        for delta in (-1, 0, 1):
+            n = size + delta
+            body = b"<p>" + b"x" * 50 + b"</p>"
+            k = (n - len(base) - len(tail)) // len(body)
+            pad = n - len(base) - len(tail) - k * len(body)
+            good = base + body * k + b" " * pad + tail
+            trunc = (base + body * (k + 2000))[:n]            # same length, nothing closed: ill-formed
+            for d in (good, trunc):
+                assert len(d) == n
+                cases.append((cc.x2w_line(d, strtbl=0, version=rng.below(4)), "exact-64k", d))
     L = 1000
     for n in (L - 10, L - 3, L - 2, L - 1, L, L + 1, 5000, 100000):
         d = cc.deep_xml(n)
@@ -153,7 +168,7 @@ def run(ctx):
     else:
         cases = gen_cases(ctx, quick)
     lines = [c[0] for c in cases]
-    heavy = [i for i, c in enumerate(cases) if c[1] in ("deep", "wide", "attrs", "entities", "replay")]
+    heavy = [i for i, c in enumerate(cases) if c[1] in ("deep", "wide", "attrs", "entities", "replay", "exact-64k")]
     hs = set(heavy)
     light = [i for i in range(len(cases)) if i not in hs]
     answers = [None] * len(cases)
